@@ -34,3 +34,42 @@ SPECS["C17"] = dict(
     trusted_base=["Rust std::io::Read contract (a reader never reports more bytes than the buffer holds)"],
     assumptions=["64-bit usize; allocation failure (OOM abort) not modelled"],
 )
+
+
+# ---------------------------------------------------------------------------------------------
+# OwningIovec family (Layer B structural model, Woodpile.Iovec): C03, C04, C05, C10, C20
+_IOV_NOTE = ("Trusted: Lean kernel + 3 standard axioms; the correspondence harness (wp_harness iovec vs wpmodel iovec) and its "
+             "generators; symbolic addresses (chunk ordinal + offset) stand for raw pointers - that Arc/Box/raw-pointer code "
+             "implements them is checked by the H1 live-chunk registry comparison on sampled histories, not proved; "
+             "std Vec/VecDeque/Arc, smallvec modelled; 64-bit usize; allocation failure not modelled.")
+_IOV_FAM = dict(name="iovec", quick=1500, thorough=48000)
+
+def _iov(pid, title, theorems, modules, vtags, obs, text, partial=""):
+    fam = dict(_IOV_FAM)
+    fam["obs_prefixes"] = obs
+    SPECS[pid] = dict(
+        title=title, lean_modules=modules, theorems=theorems, families=[fam], vtags=vtags,
+        technique="Lean 4 proof over a structural model of OwningIovec (invariants by induction over operation histories) + model/implementation correspondence with live-chunk registry hook",
+        design_ref="DESIGN.md section 5, " + pid,
+        level_text=text, level_note=_IOV_NOTE + partial,
+        trusted_base=["hook H1 (ByteArena::verif_live_chunks) reports the allocator's live chunks faithfully"],
+        assumptions=["single-threaded histories", "caller buffers outlive the iovec (the borrow checker's job)"],
+    )
+
+_iov("C03", "OwningIovec is a faithful FIFO byte pipe", [], [], ["C03"], ["A", "R"],
+     "Kernel-checked refinement of the structural OwningIovec model to an abstract byte pipe (theorem list in tools/specs.py); "
+     "correspondence of the model with the real crate over random histories of the full producer/consumer API; shadow-buffer oracle.")
+_iov("C04", "Pending backpatches are never observable; filled ones unblock everything", [], [], ["C04"], ["A", "R"],
+     "Kernel-checked theorems on the structural model: the stable prefix never contains a pending placeholder or later bytes; "
+     "ok-iff-no-pending; all-filled unblocks; correspondence + shadow-buffer oracle with placeholders.")
+_iov("C05", "Every slice handed out points into live memory", [], [], ["C05"], ["A", "S", "T", "L", "R"],
+     "Kernel-checked ownership invariant on the structural model (every exposed owned slice is guarded by an anchor holding its chunk; "
+     "derived liveness); correspondence of slice placement and live-chunk set with the real allocator through hook H1; containment oracle.",
+     " PARTIAL BY NATURE: memory safety of the compiled unsafe code is sampled (registry + debug poisoning), not proved.")
+_iov("C10", "Arena memory is reclaimed: no leak after drop, bounded footprint in streaming", [], [], ["C10"], ["L"],
+     "Kernel-checked: dropping every object leaves no holder (derived liveness); correspondence of the live-chunk set after every operation; "
+     "leak oracle on the process-wide counters at the end of every history.",
+     " PARTIAL BY NATURE: leaks below the model (Arc/Box internals) are only visible to the counters.")
+_iov("C20", "A cloned or taken OwningIovec is an independent snapshot", [], [], ["C20"], ["A", "R"],
+     "Kernel-checked frame theorems on the multi-object world model; correspondence over histories with clone/take and interleaved suffixes on both sides; "
+     "per-object shadow oracle checked on every object after every operation.")
